@@ -76,6 +76,12 @@ Theorem C05_recover : forall f gid gpl hs i k, gid <> 0%N -> nonzero_ids hs ->
 Proof. exact crash_redelivery_recovers. Qed.
 
 (* restarting on an existing database never modifies stored headers *)
+(* a FIRST start killed between the schema migrations and the genesis transaction leaves an empty store; the next
+   start produces exactly the initial store, so delivery afterwards is the uninterrupted run *)
+Theorem C05_first_start_interrupted : forall f gid gpl hs,
+  run_from f (restart gid gpl []) hs = run f gid gpl hs.
+Proof. exact first_start_interrupted. Qed.
+
 Theorem C05_restart_noop : forall f gid gpl hs, gid <> 0%N -> nonzero_ids hs -> restart gid gpl (run f gid gpl hs) = run f gid gpl hs.
 Proof. exact restart_noop. Qed.
 
@@ -93,3 +99,4 @@ Print Assumptions C05_valid_after_statement_fault.
 Print Assumptions C05_recover_step_statement_fault.
 Print Assumptions C05_recover.
 Print Assumptions C05_restart_noop.
+Print Assumptions C05_first_start_interrupted.
